@@ -47,6 +47,7 @@ type FuncContract struct {
 	InlineMax int
 	AtCall    map[string][]Clause
 	Callbacks map[string][]string // function-typed parameter -> ghost names its calls are assumed to preserve
+	Opaque    map[string]bool     // callees (short names) treated as unknown code at call sites of this function
 	DeadPaths int // number of path conditions the contracts make infeasible (reviewed)
 }
 
@@ -81,7 +82,7 @@ func NewContractSet() *ContractSet {
 
 var clauseKW = map[string]bool{"requires": true, "ensures": true, "modifies": true, "loop": true, "lock-balanced": true,
 	"terminates": true, "thin": true, "nopanic": true, "mode": true, "params": true, "prop": true, "pure": true, "noinline": true, "trusted": true,
-	"at-call": true, "nodeadlock": true, "inline-all": true, "dead-paths": true, "callback": true}
+	"at-call": true, "nodeadlock": true, "inline-all": true, "dead-paths": true, "callback": true, "opaque": true}
 
 // ParseContractFile reads //@ lines. pkgPath is the package the file belongs to ("" for dep files,
 // which must then use full names "pkgpath.Func").
@@ -291,6 +292,16 @@ func (cs *ContractSet) ParseContractFile(path, pkgPath string) error {
 					cur.AtCall = map[string][]Clause{}
 				}
 				cur.AtCall[f[1]] = append(cur.AtCall[f[1]], c)
+			case "opaque":
+				// opaque <callee>, ...: calls of these callees are treated as calls of unknown code
+				// (everything reachable is havocked, their contracts are neither required nor assumed).
+				// Sound over-approximation; used where only what happens BEFORE the call matters.
+				if cur.Opaque == nil {
+					cur.Opaque = map[string]bool{}
+				}
+				for _, g := range strings.Fields(strings.ReplaceAll(rest, ",", " ")) {
+					cur.Opaque[g] = true
+				}
 			case "callback":
 				// callback <param> preserves $g1, $g2: ASSUMPTION that calls of the function-typed
 				// parameter <param> leave the named ghost state unchanged (everything else is havocked)
